@@ -88,8 +88,9 @@ CHECKS = {
    text=("TLC checks snapshot independence, last-update gauges and survival of closed sub-scopes on the sequential model for all short histories and shows the three "
          "weakenings are caught. Seeded random histories (all four kinds, derived scopes, snapshots at arbitrary points, Close of sub-scopes) run on real test scopes; every "
          "event is replayed through the model's action and every snapshot - including earlier ones re-read later and after the harness wrote into snapshot maps - is compared "
-         "with the model state by TLC."),
-   note="Trusted: the harness's abstraction of snapshot entries (name{tags}, bucket upper bounds as strings, value tokens), TLC. The concurrent-snapshot clause is not covered yet.",
+         "with the model state by TLC. SnapshotWindow.tla gives the bound for a snapshot taken while others record (returned-before-call <= value <= called-before-return); "
+         "real snapshots taken by two goroutines against 2-4 recorders are judged against it."),
+   note="Trusted: the harness's abstraction of snapshot entries (name{tags}, bucket upper bounds as strings, value tokens), TLC. Concurrent snapshots are free-running goroutines (not scheduler-controlled): the window bound is checked on whatever interleavings occur.",
    design_ref="DESIGN.md section 6 C11"),
  "C12": dict(
    technique="TLA+ specs M3Batching.tla (the batching loop over items with charged and actual sizes; assumptions A1-A3 as named predicates) and M3Reporter.tla checked by TLC; the real loop's dequeued items (observation hooks) and the datagrams at a loopback sink validated by TLC against M3BatchingTrace.tla",
